@@ -57,6 +57,8 @@ type Opts struct {
 	NoConsensus bool
 	// NoMempool leaves the mempool topic to the caller.
 	NoMempool bool
+	// GenesisTime overrides the genesis block time (0: GenesisTime constant).
+	GenesisTime int64
 	// P2P handles messages sent to the p2p topic (nil: default sink).
 	P2P func(msg *queue.Message)
 }
@@ -115,6 +117,9 @@ func New(o Opts) *Node {
 		n.Disk = simdb.NewDisk(o.ID)
 	}
 	toml := BaseToml(o.ID)
+	if o.GenesisTime != 0 {
+		toml = strings.ReplaceAll(toml, fmt.Sprintf("genesisBlockTime=%d", GenesisTime), fmt.Sprintf("genesisBlockTime=%d", o.GenesisTime))
+	}
 	if o.EditToml != nil {
 		toml = o.EditToml(toml)
 	}
